@@ -39,7 +39,7 @@ REQUIRED = dict(monitors=['sigma-is-sum-of-components', 'component-is-xsec-times
                           'contribution-list-restored', 'store-contributions-equal-model-contrib'],
                 classes=['live:fault-before-evaluation', 'cia:he-zero', 'cia:trace-zero', 'cia:trace-zero-in-some-layers', 'contrib:CIA', 'contrib:Rayleigh', 'contrib:SimpleClouds', 'contrib:FlatMie', 'contrib:LeeMie',
                          'contrib:HydrogenIon', 'model:emission', 'early-exit-observed', 'species>=2', 'restricted-grid',
-                         'live:starts-at-zero', 'live:write-from-zero', 'live:write-to-zero', 'live:write-rescale'])
+                         'live:starts-at-zero', 'live:write-from-zero', 'live:write-to-zero', 'live:write-rescale', 'chemistry:makefree+file'])
 _rec = {'yields': {}, 'sigma': {}}
 CUT = base.CUT
 
@@ -98,7 +98,7 @@ def teardown(ctx):
 
 
 # ---------------------------------------------------------------- generators
-def make_case(rng, hion=None, n_active=None, kind='transmission'):
+def make_case(rng, hion=None, n_active=None, kind='transmission', makefree=False):
     for _ in range(50):
         spec = world.random_world_spec(rng, n_active=n_active if n_active is not None else int(rng.integers(1, 4)),
                                        nlayers=int(rng.choice([2, 3, 5, 7, 13])), nwn=int(rng.integers(3, 25)))
@@ -115,6 +115,8 @@ def make_case(rng, hion=None, n_active=None, kind='transmission'):
         spec['cia_magnitude'] = spec['magnitude']
         spec['cia_seed'] = int(rng.integers(0, 2 ** 31))
         spec['ngauss'] = 4
+        if makefree if makefree is not None else rng.random() < 0.12:
+            world.make_free_route(rng, spec)
         if world.is_bound(spec):
             return spec
     raise RuntimeError('generator could not draw a bound atmosphere')
@@ -153,6 +155,9 @@ def observe_case(ctx, spec, kind):
 
 def expected_mix(spec, model):
     """Mixing profile of every trace gas from a freshly built profile object (no chemistry indexing involved)."""
+    if spec.get('makefree'):
+        return world.makefree_reference(spec, model.nLayers, model.temperatureProfile, model.pressureProfile,
+                                        model.altitudeProfile)
     out = {}
     for g in spec['gases']:
         o = world.build_gas(g, spec['pmin'], spec['pmax'])
@@ -245,8 +250,9 @@ def skipped(snap):
 # ----------------------------------------------------------------- workloads
 def wl_compose(ctx, rng):
     """(a)(b)(c)(f) on one transmission world."""
-    spec = make_case(rng)
+    spec = make_case(rng, makefree=None)
     observe_case(ctx, spec, 'transmission')
+    ctx.observe('chemistry:makefree+file' if spec.get('makefree') else 'chemistry:free')
     model, contribs, ops, cias = realise(spec)
     snap = base.run_model(ctx, model)
     if snap is None:
